@@ -584,8 +584,9 @@ class PGPSignature(Armorable, ParentRef, PGPObject):
         pkt = Packet(data)
         if pkt.header.tag == PacketTag.Signature:
             if isinstance(pkt, Opaque):
-                # this is an unrecognized version.
-                pass
+                # this is an unrecognized version: the object holds no signature
+                # (not the one it may have held before this call)
+                self._signature = None
             else:
                 self._signature = pkt
         else:
